@@ -3,6 +3,8 @@ use tokio::io::{self, AsyncRead, AsyncReadExt};
 
 use crate::binning_index::index::reference_sequence::bin::Chunk;
 
+const MAX_PREALLOCATED_LEN: usize = 1 << 12;
+
 pub(super) async fn read_chunks<R>(reader: &mut R) -> io::Result<Vec<Chunk>>
 where
     R: AsyncRead + Unpin,
@@ -11,7 +13,9 @@ where
         usize::try_from(n).map_err(|e| io::Error::new(io::ErrorKind::InvalidData, e))
     })?;
 
-    let mut chunks = Vec::with_capacity(n_chunk);
+    // The count is read from the input and is not yet validated, i.e., only a limited capacity is
+    // preallocated, and the collection grows as entries are read.
+    let mut chunks = Vec::with_capacity(n_chunk.min(MAX_PREALLOCATED_LEN));
 
     for _ in 0..n_chunk {
         let chunk = read_chunk(reader).await?;
